@@ -552,7 +552,15 @@ namespace bloch::runtime {
         bool hasClasses = !program.classes.empty();
         if (hasClasses) {
             buildClassTable(program);
-            for (auto& kv : m_classTable) initStaticFields(kv.second.get());
+            // Static initialisers must not depend on the order in which the classes were declared
+            // (m_classTable iterates in an insertion-dependent order): run them class by class in
+            // name order; one that reads a static of a class not yet initialised triggers that
+            // class's initialisation first (readStatic).
+            std::vector<std::string> classNames;
+            classNames.reserve(m_classTable.size());
+            for (auto& kv : m_classTable) classNames.push_back(kv.first);
+            std::sort(classNames.begin(), classNames.end());
+            for (auto& name : classNames) initStaticFields(m_classTable[name].get());
             ensureGcThread();
         }
         for (auto& fn : program.functions) {
@@ -617,7 +625,7 @@ namespace bloch::runtime {
             }
             auto [field, owner] = findStaticFieldWithOwner(m_currentClassCtx, name);
             if (field && owner && field->offset < owner->staticStorage.size())
-                return owner->staticStorage[field->offset];
+                return readStatic(owner, field->offset);
         }
         auto clsIt = m_classTable.find(name);
         if (clsIt != m_classTable.end()) {
@@ -1255,6 +1263,13 @@ namespace bloch::runtime {
             m_inStaticContext = prevStatic;
             m_currentClassCtx = prevClass;
         }
+    }
+
+    const Value& RuntimeEvaluator::readStatic(RuntimeClass* owner, size_t idx) {
+        // A slot that is still empty belongs to a class whose static initialisers have not run yet.
+        if (owner->staticStorage[idx].type == Value::Type::Void)
+            initStaticFields(owner);
+        return owner->staticStorage[idx];
     }
 
     void RuntimeEvaluator::ensureGcThread() {
@@ -2492,7 +2507,7 @@ namespace bloch::runtime {
                 if (field && owner) {
                     size_t idx = field->offset;
                     if (idx < owner->staticStorage.size())
-                        return owner->staticStorage[idx];
+                        return readStatic(owner, idx);
                 } else if (method) {
                     Value v;
                     v.type = Value::Type::ClassRef;
@@ -2516,7 +2531,7 @@ namespace bloch::runtime {
                             ? findStaticFieldWithOwner(obj.objectValue->cls, memAcc->member)
                             : std::pair<RuntimeField*, RuntimeClass*>{nullptr, nullptr};
                     if (staticField && owner && staticField->offset < owner->staticStorage.size())
-                        return owner->staticStorage[staticField->offset];
+                        return readStatic(owner, staticField->offset);
                 }
             }
             return {};
